@@ -2,7 +2,7 @@
 EXTENDS Integers, Sequences, TLC, Json, IOUtils
 CONSTANTS Accts, Start, Deposit
 Trace == ndJsonDeserialize(IOEnv.TRACE_FILE)
-VARIABLES l, bal, del, unb, voted, active, burned, redel, last
+VARIABLES l, bal, del, unb, voted, active, burned, redel, slashed, last
 Paths == {}
 Ops == {}
 Amts == {}
@@ -11,10 +11,16 @@ Options == {}
 INSTANCE Adapter
 ln(k) == Trace[k]
 A(k) == ln(k).args
-TInit == l = 0 /\ bal = <<>> /\ del = <<>> /\ unb = <<>> /\ voted = <<>> /\ active = TRUE /\ burned = 0 /\ redel = <<>> /\ last = [act |-> "None", res |-> "ok"]
+TInit == l = 0 /\ bal = <<>> /\ del = <<>> /\ unb = <<>> /\ voted = <<>> /\ active = TRUE /\ burned = 0 /\ redel = <<>> /\ slashed = FALSE /\ last = [act |-> "None", res |-> "ok"]
 Report(k, name, holds) == holds \/ PrintT(<<"VIOL", k, name>>)
 IsStep(k) == ln(k).ev # "Reset"
-Judge(k) ==
+(* a slash (double-sign evidence in BeginBlock): what the staking module "burns" - from the bonded AND from the not-bonded pool - *)
+(* arrives at the fee collector and the total supply is unchanged; amounts are exact decimal strings of base units              *)
+JudgeSlash(k) ==
+  /\ Report(k, "C17.SlashSupplyUnchanged", ln(k).slash.supply = "0")
+  /\ Report(k, "C17.SlashBurnToCollector", ln(k).slash.sink = ln(k).slash.pools)
+  /\ Report(k, "C17.SlashHappened", ln(k).slash.pools # "0")
+JudgeStep(k) ==
   /\ Report(k, "C17.SupplyUnchanged", ln(k).st.supply = 0)
   /\ Report(k, "C17.Conserved", Conserved')
   /\ IsStep(k) =>
@@ -36,10 +42,12 @@ Judge(k) ==
      /\ Report(k, "C17.Tx2ForCallerOnly", ln(k).ev = "Tx2" => \A a \in Accts \ {"dbl"} : bal'[a] = bal[a] /\ del'[a] = del[a] /\ unb'[a] = unb[a] /\ voted'[a] = voted[a])
      (* "burned" coins go to the fee collector: total supply unchanged, the sink gains exactly the deposit *)
      /\ Report(k, "C17.BurnToCollector", ln(k).ev = "Expire" => (burned' - burned = ln(k).st.sink - Trace[k - 1].st.sink))
+Judge(k) == IF ln(k).ev = "Slash" THEN JudgeSlash(k) ELSE JudgeStep(k)
 C_Step(k) ==
   CASE ln(k).ev = "Tx" -> TxEff(A(k).path, A(k).op, A(k).val, A(k).amt, A(k).opt) /\ (ln(k).res = "ok") = TxOK(A(k).path, A(k).op, A(k).val, A(k).amt, A(k).opt)
     [] ln(k).ev = "Tx2" -> Tx2Eff(A(k).val, A(k).opt, A(k).opt2) /\ (ln(k).res = "ok") = Tx2OK(A(k).val, A(k).opt, A(k).opt2)
     [] ln(k).ev = "Expire" -> ExpireEff
+    [] ln(k).ev = "Slash" -> TRUE
     [] OTHER -> FALSE
 Conform(k) == IsStep(k) => (C_Step(k) \/ PrintT(<<"DRIFT", k, ln(k).ev>>))
 F(k, f) == [a \in Accts |-> ln(k).st[a][f]]
@@ -48,7 +56,7 @@ TNext == LET k == l + 1 IN
   /\ l < Len(Trace) /\ l' = k
   /\ bal' = F(k, "bal") /\ del' = [a \in Accts |-> [x \in V |-> ln(k).st[a].del[x]]] /\ unb' = F(k, "unb") /\ voted' = F(k, "voted")
   /\ redel' = [a \in Accts |-> {<<r[1], r[2]>> : r \in SeqSet(ln(k).st[a].redel)}]
-  /\ active' = ln(k).st.active /\ burned' = ln(k).st.burned
+  /\ active' = ln(k).st.active /\ burned' = ln(k).st.burned /\ slashed' = (ln(k).ev = "Slash")
   /\ last' = [act |-> ln(k).ev, res |-> ln(k).res]
   /\ Judge(k) /\ Conform(k)
 TSpec == TInit /\ [][TNext]_<<l, vars>>
